@@ -5,6 +5,9 @@ package resprops
 // client call return an error rather than panic in the caller's goroutine.
 
 import (
+	"time"
+	"sync/atomic"
+	"os"
 	"bytes"
 	"fmt"
 	"io"
@@ -53,7 +56,54 @@ func mutateString(rt *rapid.T, s string, label string) (string, string) {
 	}
 }
 
+// a case that does not finish within 30 s is a hang ("loop forever"): reported with the request / response being processed
+var (
+	c04Cur      atomic.Value // c04Box: the case in flight
+	c04CurCheck atomic.Value // string
+	c04Busy     atomic.Bool
+	c04Done     atomic.Int64
+)
+
+type c04Box struct{ c any }
+
+func startC04Watchdog(rec *stats.Recorder) func() {
+	done := make(chan struct{})
+	go func() {
+		last, stuck := int64(-1), 0
+		for {
+			select {
+			case <-done:
+				return
+			case <-time.After(5 * time.Second):
+			}
+			cur := c04Done.Load()
+			if cur == last && c04Busy.Load() {
+				stuck++
+			} else {
+				stuck = 0
+			}
+			last = cur
+			if stuck >= 6 {
+				name, _ := c04CurCheck.Load().(string)
+				box, _ := c04Cur.Load().(c04Box)
+				rec.Violation("hang-"+name, "handling one malformed message did not finish within 30 s (process aborted by the watchdog)", box.c)
+				stats.FlushAll()
+				os.Exit(1)
+			}
+		}
+	}()
+	return func() { close(done) }
+}
+
+func c04Enter(check string, c any) func() {
+	c04Cur.Store(c04Box{c})
+	c04CurCheck.Store(check)
+	c04Busy.Store(true)
+	return func() { c04Busy.Store(false); c04Done.Add(1) }
+}
+
 func checkHostileRequest(rec *stats.Recorder, c hostileReq) string {
+	defer c04Enter("http-request", c)()
 	w := getWorld("bare")
 	sl := &slot{}
 	sl.hook = benignHook
@@ -142,6 +192,7 @@ func TestC04Requests(t *testing.T) {
 		t.Skip()
 	}
 	w := getWorld("bare")
+	defer startC04Watchdog(rec)()
 	rapid.Check(t, func(rt *rapid.T) {
 		// a valid request captured from a real client call ...
 		mi := methods[pick(rt, len(methods), "method")]
@@ -235,6 +286,7 @@ func (t cannedTransport) RoundTrip(req *http.Request) (*http.Response, error) {
 }
 
 func checkHostileResponse(rec *stats.Recorder, c hostileResp) string {
+	defer c04Enter("http-response", c)()
 	rec.Case("hostile_response", "mutation="+c.Op, fmt.Sprintf("lenient_client=%v", c.Lenient))
 	rec.NonTrivial("response", hx.J(c), func() any { return c })
 	cl := &restli.Client{Client: &http.Client{Transport: cannedTransport{&c}}, HostnameResolver: &restli.SimpleHostnameResolver{Hostname: getWorld("bare").baseURL("verif.test")},
@@ -340,6 +392,7 @@ func TestC04Responses(t *testing.T) {
 		t.Skip()
 	}
 	w := getWorld("bare")
+	defer startC04Watchdog(rec)()
 	rapid.Check(t, func(rt *rapid.T) {
 		mi := methods[pick(rt, len(methods), "method")]
 		call := genCall(rt, g, mi)
